@@ -95,11 +95,12 @@ def generate(repo_src_dir, template_paths):
                 continue
             if s.startswith('//@@ fn '):
                 parts = s.split()
-                relname, key = parts[2], parts[3]
+                relname, key = parts[2], parts[3].replace('%', ' ')
                 opts = parts[4:]
                 retname = 'r'
                 trusted = False
                 rename = None
+                inherent = False
                 for o in opts:
                     if o.startswith('ret='):
                         retname = o[4:]
@@ -107,6 +108,8 @@ def generate(repo_src_dir, template_paths):
                         trusted = True
                     elif o.startswith('rename='):
                         rename = o[7:]
+                    elif o == 'inherent':
+                        inherent = True
                     else:
                         raise ExtractionError('unknown directive option %s' % o)
                 # collect sections
@@ -137,9 +140,27 @@ def generate(repo_src_dir, template_paths):
                 head = rsx.strip_visibility(head)
                 head = re.sub(r'\s+', ' ', head).strip()
                 head = head.replace('( ', '(').replace(', )', ')')
+                mut_self = bool(re.search(r'\(\s*mut self\b', head))
+                if mut_self:
+                    head = re.sub(r'\(\s*mut self\b', '(self', head)
                 if rename:
                     head = re.sub(r'\bfn\s+%s\b' % re.escape(it.name), 'fn ' + rename, head, count=1)
                     log.append('renamed %s -> %s (name clash in the single-module file)' % (it.name, rename))
+                if inherent:
+                    # R6: a trait-impl method is emitted as an inherent method; `Self::<Assoc>` is replaced by
+                    # the associated type defined in that impl
+                    assoc = dict(it.assoc_types)
+                    selfty = (it.owner or '').split(' for ')[-1]
+                    for lst in index[relname].values():
+                        for other in lst:
+                            if (other.owner or '').split(' for ')[-1] == selfty:
+                                for an, at in other.assoc_types.items():
+                                    assoc.setdefault(an, at)
+                    for an, at in assoc.items():
+                        if ret is not None:
+                            ret = re.sub(r'\bSelf::%s\b' % re.escape(an), at, ret)
+                        head = re.sub(r'\bSelf::%s\b' % re.escape(an), at, head)
+                    log.append('R6: method of `%s` emitted as an inherent method (associated types substituted: %s)' % (it.impl_header, assoc))
                 sig = head
                 if ret is not None:
                     sig += ' -> (%s: %s)' % (retname, rsx.norm_ws(ret))
@@ -164,6 +185,17 @@ def generate(repo_src_dir, template_paths):
                                        % (key, relname, it.line_start, it.line_end))
                 else:
                     body = it.body
+                    if mut_self:
+                        # R7: `mut self` receiver (unsupported by Verus) -> `self` + `let mut this = self;`
+                        msk_b = rsx.mask(body)
+                        pieces, last = [], 0
+                        for mm in re.finditer(r'\bself\b', msk_b):
+                            pieces.append(body[last:mm.start()])
+                            pieces.append('this')
+                            last = mm.end()
+                        pieces.append(body[last:])
+                        body = '\n        let mut this = self;' + ''.join(pieces)
+                        log.append('R7: by-value `mut self` receiver rewritten to `self` + `let mut this = self;` (body uses `this`)')
                     body = rsx.resolve_cfg_unstable(body, log)
                     body, removed_fns, removed = rsx.hoist_nested_items(body, log)
                     body = rsx.rewrite_ptr_copy(body, log)
